@@ -1473,6 +1473,23 @@ where
         ));
     }
 
+    // The height the fold schedule reaches must be the height of the tallest committed
+    // matrix (native: `FriError::GlobalMaxHeightMismatch`). A proof whose degree disagrees
+    // would otherwise index the query bits out of range in `open_input`.
+    if let Some(expected) = commitments_with_opening_points
+        .iter()
+        .flat_map(|(_, mats)| {
+            mats.iter()
+                .map(|(domain, _)| domain.log_size() + log_blowup)
+        })
+        .max()
+        && expected != log_max_height
+    {
+        return Err(VerificationError::InvalidProofShape(format!(
+            "global max height mismatch: expected {expected}, got {log_max_height}"
+        )));
+    }
+
     // The global FRI schedule (`log_arities`) is derived from the first query proof
     // only (see `FriProofTargets::new`). Every other query is *assumed* to share that
     // schedule; a malformed proof can carry a different per-query schedule or
